@@ -51,6 +51,22 @@ func sigParseObj(api *probe.API, s string) (string, probe.Obj) {
 	return "accept " + sigObj(api, o), o
 }
 
+// heldErr is an error value obtained earlier with its observable identity at that time: an error
+// that is a shared, later-rewritten instance would change under the caller's feet.
+type heldErr struct {
+	api  *probe.API
+	err  error
+	info probe.ErrInfo
+	src  string
+}
+
+func (h *heldErr) check(st *c14State, after string) {
+	if got := h.api.Classify(h.err); got != h.info {
+		st.mismatch(Violation{Kind: "error-value-changed-by-a-later-call", Version: h.api.Ver.Name, Steps: []Step{{Op: "parse", S: h.src}, {Op: "parse", S: after}},
+			Expected: "the error returned for " + h.src + " still is " + h.info.String(), Observed: got.String(), Detail: map[string]any{"later_call": after}})
+	}
+}
+
 // held is an object obtained earlier together with everything observable about it at that time.
 type held struct {
 	api *probe.API
@@ -288,6 +304,7 @@ func c14Stress(st *c14State, inputs []c14Input, shared [][]probe.Obj, G, procs, 
 			r := gen.New(st.seed, "C14", "stress", tag, fmt.Sprint(g))
 			ring := make([]pair, 0, 512)
 			oring := make([]held, 0, 64)
+			ering := make([]heldErr, 0, 64)
 			prevKey := ""
 			note := func(key string) {
 				st.mu.Lock()
@@ -307,6 +324,18 @@ func c14Stress(st *c14State, inputs []c14Input, shared [][]probe.Obj, G, procs, 
 					api := probe.APIs[in.ver]
 					got, obj := sigParseObj(api, in.s)
 					note("parse:" + api.Ver.Name + ":" + in.s)
+					if obj == nil && k%4 == 0 {
+						if _, err, p := api.SafeParse(in.s); err != nil && p == nil {
+							he := heldErr{api, err, api.Classify(err), in.s}
+							if len(ering) < cap(ering) {
+								ering = append(ering, he)
+							} else {
+								j := r.Intn(len(ering))
+								ering[j].check(st, in.s)
+								ering[j] = he
+							}
+						}
+					}
 					if obj != nil {
 						h := held{api, obj, got[len("accept "):], in.s}
 						if len(oring) < cap(oring) {
@@ -435,6 +464,9 @@ func c14Stress(st *c14State, inputs []c14Input, shared [][]probe.Obj, G, procs, 
 			for k := range oring {
 				oring[k].check(st, "<end of run>")
 			}
+			for k := range ering {
+				ering[k].check(st, "<end of run>")
+			}
 			for _, p := range ring {
 				if p.s != p.clone {
 					st.mismatch(Violation{Kind: "returned-string-changed-afterwards", Steps: []Step{{Op: "vector"}}, Expected: p.clone, Observed: p.s})
@@ -467,6 +499,7 @@ func c14History(st *c14State, inputs []c14Input, randomSeqs int, full, triples b
 	}
 	run := func(seq []int) {
 		var kept []held
+		var keptErr []heldErr
 		for pos, i := range seq {
 			in := &inputs[i]
 			got, obj := sigParseObj(probe.APIs[in.ver], in.s)
@@ -477,6 +510,14 @@ func c14History(st *c14State, inputs []c14Input, randomSeqs int, full, triples b
 			}
 			if obj != nil && len(kept) < 8 {
 				kept = append(kept, held{probe.APIs[in.ver], obj, got[len("accept "):], in.s})
+			}
+			for k := range keptErr {
+				keptErr[k].check(st, in.s)
+			}
+			if obj == nil && len(keptErr) < 8 {
+				if _, err, p := probe.APIs[in.ver].SafeParse(in.s); err != nil && p == nil {
+					keptErr = append(keptErr, heldErr{probe.APIs[in.ver], err, probe.APIs[in.ver].Classify(err), in.s})
+				}
 			}
 			if got != in.base {
 				var steps []Step
